@@ -75,22 +75,24 @@ theorem parseSpaces_nodup {sp : Spaces} {n : Nat} {l : List Nat} (h : parseSpace
       exact List.nodup_nil
     · split at h
       · cases h
-      · rename_i hb
-        split at h
+      · split at h
         · cases h
-        · rename_i hd
-          simp only [Except.ok.injEq] at h
-          subst h
-          have hnd : li.Nodup := nodup_of_eraseDups_length li (by simpa using hd)
-          have hnn : ∀ i ∈ li, 0 ≤ i := by
-            intro i hi
-            by_contra hc
-            exact hb (Or.inl (List.any_eq_true.mpr ⟨i, hi, by simpa using (by omega : i < 0)⟩))
-          refine List.Nodup.map_on ?_ hnd
-          intro x hx y hy hxy
-          have := hnn x hx
-          have := hnn y hy
-          omega
+        · rename_i hb
+          split at h
+          · cases h
+          · rename_i hd
+            simp only [Except.ok.injEq] at h
+            subst h
+            have hnd : li.Nodup := nodup_of_eraseDups_length li (by simpa using hd)
+            have hnn : ∀ i ∈ li, 0 ≤ i := by
+              intro i hi
+              by_contra hc
+              exact hb (Or.inl (List.any_eq_true.mpr ⟨i, hi, by simpa using (by omega : i < 0)⟩))
+            refine List.Nodup.map_on ?_ hnd
+            intro x hx y hy hxy
+            have := hnn x hx
+            have := hnn y hy
+            omega
 
 /-- a duplicate-free `spaces` tuple within range is a permutation of the masked positions in axis order -/
 theorem perm_masked {n : Nat} {l : List Nat} (hnd : l.Nodup) (hlt : ∀ i ∈ l, i < n) :
